@@ -19,7 +19,7 @@ VERIF = os.path.dirname(HERE)
 REPO = os.environ.get("VERIF_REPO", "/repo")
 BUILD = os.path.join(VERIF, "build", "hsim")
 PROPERTY = "C08"
-EVIDENCE = os.path.join(VERIF, "evidence", PROPERTY + ".json")
+EVIDENCE = os.path.join(os.environ.get("VERIF_EVIDENCE_DIR", os.path.join(VERIF, "evidence")), PROPERTY + ".json")
 REPLAYS = os.path.join(VERIF, "sim", "replays")
 KNOWN = os.path.join(VERIF, "known_findings.json")
 WORKERS = min(16, os.cpu_count() or 4)
